@@ -206,8 +206,21 @@ def drive_and_validate(prop, tier, seed, bins, workdir, shards, tlc_timeout):
         shutil.rmtree(d, ignore_errors=True)
         os.makedirs(d)
         t0 = time.time()
+        curfile = os.path.join(d, "current-case.json")
         r = subprocess.run([binpath, "drive", prop, "--tier", tier, "--seed", str(seed), "--out", d, "--shards", str(shards)],
-                           stdout=subprocess.PIPE, stderr=subprocess.PIPE, text=True, timeout=3600)
+                           stdout=subprocess.PIPE, stderr=subprocess.PIPE, text=True, timeout=3600,
+                           env=dict(os.environ, VERIF_CURRENT_FILE=curfile))
+        if r.returncode < 0 or r.returncode in (101, 134, 139):
+            # the driver was killed (abort / stack overflow / signal) inside a call of the code under test
+            try:
+                case = json.load(open(curfile))
+            except Exception:
+                case = {}
+            ev = {"op": case.get("op", "?"), "cf": "fun", "f": "", "x": case.get("x", {}), "y": {"k": str(case.get("y")), "b": []}, "a": case.get("a", {})}
+            res["violations"].append({"profile": prof, "shard": "driver", "line": 0, "event": ev,
+                                      "complaints": ["process-killed-by-call (exit %d): %s" % (r.returncode, r.stderr[-300:].replace("\n", " "))],
+                                      "expected": {}, "prefix": []})
+            continue
         if r.returncode == 3:
             # the watchdog fired: a call of the code under test did not return
             hang = [json.loads(l) for l in r.stdout.splitlines() if l.startswith('{"case"') or '"k":"HANG"' in l]
